@@ -370,6 +370,11 @@ pub fn frames_for(cookies: &HashMap<crate::model::FlowKey, u32>, thorough: bool)
         v.push(("long-v4-syn".into(), vec![], g.tcp(4294967295, 4294967295, F_SYN, b"")));
         v.push(("long-v4-stun".into(), vec![], g.udp(&stun_magic(&[], &ID12))));
     }
+    // the L2-L4 pair set (ARP whose sender hardware address differs from the Ethernet source, ND
+    // whose link-layer option names another MAC, sibling destinations, replies beyond 1500 bytes)
+    for pfr in crate::props::pairs::l2l4_frames() {
+        v.push((format!("l2l4:{}", pfr.name), vec![], pfr.frame));
+    }
     // address forms: the printed addresses are the frame's own, whatever their form (IPv4-mapped /
     // IPv4-compatible IPv6, embedded denied IPv4 address, link-local, loopback, unspecified,
     // multicast and broadcast sources)
